@@ -1,5 +1,6 @@
 """C16 — PAUSE holds new transactions and RESUME releases every one of them."""
 from mirlib import *
+from common import completed_request_release_findings
 
 H = "pgcat::client::Client::handle::{closure#0}"
 WP = "pgcat::pool::ConnectionPool::wait_paused::{closure#0}"
@@ -179,6 +180,12 @@ def run(ctx):
                 r3.check(bool(inF) and bool(inner_rm) and wit is None, "next-transaction-passes-the-gate", "after a round trip that leaves no transaction open (%d sites), in transaction mode the next client message is read only behind the gate" % len(inF),
                          "after a round trip that ended the transaction (in_transaction()==false, transaction mode, no COPY) the transaction loop can read and run the client's next message without releasing the server and passing "
                          "wait_paused(): a pipelined second query starts a transaction on a paused pool", "", wit and wit != [0] and h.describe_path(wit))
+            # ... and a request that pgcat answers itself (a plugin's verdict, a batch served from the statement cache) ends with the same test (D83)
+            crr = completed_request_release_findings(F)
+            if crr is None:
+                r3.missing("transaction loop / message-code switch in handle")
+            for key, ok, good, bad in crr or []:
+                r3.check(ok, key, good, bad)
             recv_f = fields_of(h, wps[0].args[0])
             vis = set()
             origins(h, wps[0].args[0], visited=vis)
